@@ -50,7 +50,18 @@ class C04(FCheck):
         if r.random() < 0.2:
             ops.append(gen.f_op("src/.gitignore", 6, runs=[]))
             flags["gitignore"] = True
-        inv = gen.mk_inv(["src"], "dst", driver=driver, workers=r.choice([1, 2, 4]), block_size=bs, **flags)
+        srcs = ["src"]
+        if mode == "noclobber":
+            # top-level entries given one by one into the existing dst/ (xcp -n refuses an existing directory outright,
+            # so the probe of colliding *files* is only reached this way); every second one collides
+            ops = [o for o in ops if not o["p"].startswith("dst")]
+            ops.append(gen.d_op("dst"))
+            tops = [o["p"] for o in ops if o["p"].startswith("src/") and o["p"].count("/") == 1 and o["op"] in ("file", "symlink", "node")]
+            srcs = tops or ["src"]
+            for i, t in enumerate(tops):
+                if i % 2 == 0:
+                    ops.append(gen.f_op("dst/" + t.split("/", 1)[1], 50 + i, pat=r.randrange(1, 1 << 30)))
+        inv = gen.mk_inv(srcs, "dst", driver=driver, workers=r.choice([1, 2, 4]), block_size=bs, **flags)
         kernel = {"fiemap": "emulate"} if r.random() < 0.5 else {}
         return {"setup": ops, "steps": [{"inv": inv, "ignore": {"src": []} if flags.get("gitignore") else None}], "kernel": kernel}
 
